@@ -268,15 +268,18 @@ class MQTTProtocol(MQTTBaseProtocol):
             msg = self.factory.windowPubRx[self.addr][response.msgId]
         except KeyError as e:
             log.debug("==> {packet:7}(id={response.msgId:04x} dup={response.dup}) already handled" , packet="PUBREL", response=response)
+            msg = None
         else:
             log.debug("==> {packet:7}(id={response.msgId:04x} dup={response.dup})" , packet="PUBREL", response=response)
             del self.factory.windowPubRx[self.addr][response.msgId]
-            self._deliver(msg)
         # A repeated PUBREL means our PUBCOMP was lost: it must be answered again [MQTT-4.3.3-2]
         reply = PUBCOMP()
         reply.msgId = response.msgId
         log.debug("<== {packet:7} (id={response.msgId:04x})" , packet="PUBCOMP", response=response)
         self.transport.write(reply.encode())
+        # deliver last: the application may disconnect() from its handler
+        if msg is not None:
+            self._deliver(msg)
 
 
     # --------------------------------------------------------------------------
@@ -550,6 +553,8 @@ class MQTTProtocol(MQTTBaseProtocol):
         Refills the Publisher transmission window from the queue 
         '''
         cnx = self.addr
+        if self.state is self.DISCONNECTING:    # the application disconnected from inside a callback
+            return
         while self.factory.queuePublishTx[cnx] and len(self.factory.windowPublish[cnx]) < self._window:
             request = self.factory.queuePublishTx[cnx].popleft()
             if request.msgId:   # only form QoS 1 & 2
